@@ -33,7 +33,8 @@ Pool(k) == << E(k),                                                        \* 1 
               [EmptyFilter(k, TRUE, TRUE) EXCEPT !.type = TMstp(3)],       \* 11 not control
               [E(k) EXCEPT !.lcs = LcList(<<2>>)],                         \* 12 lifecycle 2
               [E(k) EXCEPT !.ctid = Lit(<<B, A>>)],                        \* 13 ctid BA
-              [E(k) EXCEPT !.ecu = Lit(<<B, A>>), !.apid = Lit(<<A, B>>)]  \* 14 apid AB on ecu BA
+              [E(k) EXCEPT !.ecu = Lit(<<B, A>>), !.apid = Lit(<<A, B>>)], \* 14 apid AB on ecu BA
+              [E(k) EXCEPT !.apid = Re("contains", <<B>>, <<>>), !.lcs = LcList(<<2, 1>>)]   \* 15 apid contains B in lifecycles 1, 2
            >>
 NB == Len(Pool(0))
 ItemTab == Pool(KPos) \o Pool(KNeg) \o Pool(KEvent) \o <<Pool(KMarker)[1], Pool(KMarker)[3], Pool(KMarker)[6]>>
@@ -81,7 +82,16 @@ Desc == [k \in 1..NM |-> NM + 1 - k]     \* every message once, in the opposite 
 Streams == << Euler, <<>>, <<2, 1, 2, 2>>, <<6, 7, 1, 5>>, <<11, 10, 9, 8>>, <<1, 1, 1, 1>>, Desc, <<3, 7, 10, 1, 9, 5>> >>
 NS == Len(Streams)
 
-ASSUME PrintT(<<"TAB", ToJson([pool |-> ItemTab, msgs |-> Msgs, streams |-> Streams])>>)
+\* the export plugin is fed with messages whose lifecycle belongs to their ecu (AB: lifecycles 1 and 2, BA: 3, others: 4):
+\* the message table with the lifecycle re-assigned, every message twice (before / after its lifecycle was looked up)
+XLc(mm) == IF mm.ecu = AB0 THEN (IF mm.lc = 2 THEN 2 ELSE 1) ELSE IF mm.ecu = BA0 THEN 3 ELSE 4
+XMsgs == [k \in 1..NM |-> [Msgs[k] EXCEPT !.lc = XLc(Msgs[k])]]
+XStream == Desc \o [k \in 1..NM |-> k]
+XKeepOpts == << {}, {1}, {2}, {1, 3} >>      \* lifecycles to keep of the export configurations
+NX == Len(XKeepOpts)
+
+ASSUME PrintT(<<"TAB", ToJson([pool |-> ItemTab, msgs |-> Msgs, streams |-> Streams, xmsgs |-> XMsgs, xstream |-> XStream,
+                               xkeepopts |-> XKeepOpts])>>)
 
 VARIABLES items, si, i, out, passed, filtered, pc
 vars == <<items, si, i, out, passed, filtered, pc>>
@@ -111,6 +121,9 @@ SetRules == (pc = "run" /\ si = 1 /\ i = 0) => \A k \in 1..NM : \A we \in BOOLEA
     /\ ((Keep(Fs, m, FALSE) /\ Active(Fs, KEvent) = {}) => Keep(Fs, m, TRUE))
     /\ Keep(Rev(Fs), m, we) = Keep(Fs, m, we)                                 \* the order of the filters is irrelevant
     /\ (Keep(Fs, m, FALSE) => (Active(Fs, KPos) = {} \/ \E j \in Active(Fs, KPos) : Match(Fs[j], m)))
+    /\ ExportKeep(Fs, m, {}) = Keep(Fs, m, TRUE)                               \* export without lifecycles to keep
+    /\ \A c \in 1..NX : ExportKeep(Fs, XMsgs[k], XKeepOpts[c]) =>
+                            (Keep(Fs, XMsgs[k], TRUE) /\ (XKeepOpts[c] = {} \/ XMsgs[k].lc \in XKeepOpts[c]))
 \* step by step: the message just handled is the last forwarded one iff it is kept (the whole sequence is compared with
 \* FwdSeq once per stream in Closed)
 StreamOrder == (pc \in {"run", "done"} /\ i > 0) =>
@@ -135,6 +148,7 @@ EmitScn == pc = "emitted" =>
     PrintT(<<"SCN", ToJson([items  |-> items,
                             keepEv |-> KeepVec(TRUE),
                             keepNo |-> kn,
+                            xkeep  |-> [c \in 1..NX |-> [k \in 1..NM |-> ExportKeep(Fs, XMsgs[k], XKeepOpts[c])]],
                             fwd    |-> [k \in 1..NS |-> LET q == FwdFrom(kn, Streams[k])
                                                           IN [pos |-> q, passed |-> Len(q), filtered |-> Len(Streams[k]) - Len(q)]]])>>)
 =============================================================================
